@@ -245,6 +245,7 @@ func (c *Ctx) ruleWalkState(pkgs ...string) {
 				c.ok("WALKSTATE/CB-STORE", name, P.Pos(w.Call.Pos()), fmt.Sprintf("%d functions reachable from the callback: only local temporaries, append-only accumulators and per-file dedup maps are written", len(w.Closure)))
 			}
 			c.perIteration(w)
+			c.perIterationCells(w)
 		}
 	}
 }
@@ -495,6 +496,98 @@ func (c *Ctx) perIteration(w *walkInfo) {
 		c.check(dom, "WALKSTATE/PER-ITERATION", name+"#"+fname, P.Pos(w.Call.Pos()),
 			"field is assigned on every path of each iteration before the walk",
 			fmt.Sprintf("field %s is written inside the file/declaration loop and read during the walk, but not re-assigned on every path before each walk: its value leaks from the previous declaration/file", fname))
+	}
+}
+
+// perIterationCells: the same obligation for captured local variables (closure cells) that the callback reads:
+// `currentFunction := ""` declared outside the declaration loop and assigned only for FuncDecls carries the
+// previous declaration's value into the walk of the next one.
+func (c *Ctx) perIterationCells(w *walkInfo) {
+	P := c.P
+	inspectFn := w.Call.Parent()
+	name := FuncName(w.Callback)
+	loop := loopOf(w.Call.Block())
+	ancestors := map[*ssa.Function]bool{}
+	for f := inspectFn; f != nil; f = f.Parent() {
+		ancestors[f] = true
+	}
+	seen := map[*ssa.Alloc]bool{}
+	var cells []*ssa.Alloc
+	for _, fn := range w.Closure {
+		for _, fv := range fn.FreeVars {
+			cell := P.cellOf(fv)
+			if cell == nil || seen[cell] || !ancestors[cell.Parent()] {
+				continue
+			}
+			// read by the callback?
+			readIt := false
+			if refs := fv.Referrers(); refs != nil {
+				for _, r := range *refs {
+					if u, ok := r.(*ssa.UnOp); ok && u.Op == token.MUL {
+						readIt = true
+					}
+				}
+			}
+			if !readIt {
+				continue
+			}
+			seen[cell] = true
+			cells = append(cells, cell)
+		}
+	}
+	sort.Slice(cells, func(i, j int) bool { return cells[i].Pos() < cells[j].Pos() })
+	for _, cell := range cells {
+		if cell.Parent() == inspectFn && (loop == nil || loop[cell.Block()]) {
+			continue // a fresh variable per iteration / per invocation
+		}
+		// stores executed once per iteration or more often: in the loop around the walk, in inspectFn when the cell
+		// belongs to an enclosing function, or in functions nested in between
+		var inScope []*ssa.Store
+		for _, al := range P.cellAliases(cell) {
+			refs := al.Referrers()
+			if refs == nil {
+				continue
+			}
+			for _, r := range *refs {
+				st, ok := r.(*ssa.Store)
+				if !ok || st.Addr != al {
+					continue
+				}
+				f := st.Parent()
+				inWalk := false
+				for _, cf := range w.Closure {
+					if cf == f {
+						inWalk = true
+					}
+				}
+				if inWalk {
+					continue // judged by WALKSTATE/CB-STORE
+				}
+				switch {
+				case f == inspectFn && loop != nil && loop[st.Block()]:
+					inScope = append(inScope, st)
+				case f == inspectFn && cell.Parent() != inspectFn:
+					inScope = append(inScope, st)
+				case f != inspectFn && f != cell.Parent() && ancestors[f]:
+					inScope = append(inScope, st)
+				case f == cell.Parent() && f != inspectFn && loopOf(st.Block()) != nil:
+					inScope = append(inScope, st)
+				}
+			}
+		}
+		if len(inScope) == 0 {
+			continue // not re-assigned while iterating: constant for all walks it is visible to
+		}
+		dom := false
+		for _, st := range inScope {
+			if st.Parent() == inspectFn && dominates(st.Block(), w.Call.Block()) && (loop == nil || loop[st.Block()]) {
+				dom = true
+			}
+		}
+		vname := cell.Comment
+		c.check(dom, "WALKSTATE/PER-ITERATION", name+"#var "+vname, P.Pos(w.Call.Pos()),
+			"variable is assigned on every path of each iteration before the walk",
+			fmt.Sprintf("variable %s (declared at %s) is assigned inside the file/declaration loop and read during the walk, but not re-assigned on every path before each walk: its value leaks from the previous declaration/file", vname, P.Pos(cell.Pos())))
 	}
 }
 
